@@ -28,6 +28,7 @@ RULE = (
     "compared with the static table and the exact function, and the cache invariants are checked after every query. "
     "Non-trivial = at least 3 query batches of which one revisits cached vertices; distinct = distinct sequence of "
     "(query kind, axis, cache-hit class, on-grid-line flag)."
+    ' Since the second session: the function-less external-values protocol (quadrature_points_from_coordinates / assign_values), vector-valued functions, the default base point, functions that raise outside the box with queries that stray there, results kept by the caller, another table queried in between, printing, resolutions in narrow integer types, a few long histories on finer tables.'
 )
 STATE_ABSTRACTION = "(number of cached vertices capped at 40, last query kind, cache-hit class of last batch in {cold, partial, warm})"
 ASSUMPTIONS = [
